@@ -3,7 +3,8 @@
 Monitors (all on the burntime field returned by the public call)
   det.value     T(x_det) == t_det (for a detonator no other front can reach first);
                 T(x_det) <= t_det always
-  causal.min    T >= earliest detonation time (and, Kenamond 1/3, >= t_d + |p-x_d|/D)
+  causal.min    T >= earliest detonation time (and, Kenamond 1/3, >= t_d + |p-x_d|/D; Kenamond 3 with a blocked line of
+                sight: >= t_d + (a geometric lower bound of the detour)/D)
   lipschitz     |T(p)-T(q)| <= |p-q|/D_slowest for a straight segment inside the explosive
                 (inner sphere: D1; not crossing the inert obstacle for Kenamond 3)
   continuity    pairs 1e-7 apart across |p|=R (Kenamond 2), across the shadow boundary and
@@ -249,21 +250,43 @@ def run_k3(ctx, p):
     tdir = (a_t - xd) / np.linalg.norm(a_t - xd)
     nrm = a_t / R                                                # outward normal at tangent point
     shadow = np.array([a_t + tdir * sl * R for sl in (1e-3, 0.1, 1.0, 5.0)])
-    pts = np.vstack([box, anti, near_anti, shadow + nrm * 1e-9 * R])
+    # points hugging the obstacle all the way round (in the plane of the detonator, the centre and w): the shadow
+    # boundary, the plane through the centre normal to the detonator direction and the antipode are all crossed
+    hug = np.array([R * (1.0 + e_) * (math.cos(a_) * ed + math.sin(a_) * w)
+                    for e_ in (1e-9, 1e-3, 0.05, 0.3) for a_ in np.linspace(0.0, 2 * math.pi, 36, endpoint=False) + 0.013])
+    pts = np.vstack([box, anti, near_anti, shadow + nrm * 1e-9 * R, hug])
     T = T_of(ctx, s, pts)
     finite(ctx, name, T, pts, br)
     dist = np.linalg.norm(pts - xd, axis=1)
     tscale = abs(td) + dist.max() / D
     low = float(np.max((td + dist / D) - T))
-    ctx.observe("causal.min", name, low <= 1e-12 * tscale, branch="T>=t_d+|p-x_d|/D " + br, measure=low,
+    ctx.observe("causal.min", name, low <= 1e-12 * tscale, branch="T>=t_d+|p-x_d|/D " + br, measure=max(low, 0.0),
                 tol=1e-12 * tscale, detail=dict(R=R, x_d=p["x_d"]))
+    # blocked line of sight: the segment detonator -> p passes the centre at distance d < R, at its foot point c (a from the
+    # detonator, b from p).  Every path around the obstacle crosses the plane through the centre normal to the segment at a
+    # point at least h = R - d away from c, so its length is at least sqrt(a^2+h^2) + sqrt(b^2+h^2) > |p - x_d|.
+    seg = pts - xd
+    L_ = np.linalg.norm(seg, axis=1)
+    sst = np.clip(-(seg @ xd) / np.maximum(L_ ** 2, 1e-300), 0.0, 1.0)
+    cpt = xd + seg * sst[:, None]
+    dmin = np.linalg.norm(cpt, axis=1)
+    blocked = (dmin < R) & (sst > 0) & (sst < 1)
+    if blocked.any():
+        h_ = R - dmin[blocked]
+        a_, b_ = sst[blocked] * L_[blocked], (1 - sst[blocked]) * L_[blocked]
+        bound = np.sqrt(a_ ** 2 + h_ ** 2) + np.sqrt(b_ ** 2 + h_ ** 2)
+        short = float(np.max((td + bound / D) - T[blocked]))
+        k_ = int(np.argmax((td + bound / D) - T[blocked]))
+        ctx.observe("causal.min", name, short <= 1e-12 * tscale, branch="blocked line of sight: T>=t_d+detour/D " + br, measure=max(short, 0.0), tol=1e-12 * tscale,
+                    detail=dict(R=R, x_d=p["x_d"], D=D, t_d=td, point=pts[blocked][k_].tolist(), T=float(T[blocked][k_]), detour_bound=float(bound[k_]),
+                                straight=float(L_[blocked][k_]), blocked_points=int(blocked.sum())))
     # upper bound: tangent - arc - tangent path is always admissible for shadowed points, and the
     # straight line for visible ones; the first-arrival time can never exceed the bound
     # |p-x_d| <= path <= l_da + R*pi + l_bp
     l_da = math.sqrt(lod ** 2 - R ** 2)
     l_bp = np.sqrt(np.maximum(np.linalg.norm(pts, axis=1) ** 2 - R ** 2, 0))
     up = float(np.max(T - (td + (l_da + math.pi * R + l_bp) / D)))
-    ctx.observe("causal.min", name, up <= 1e-12 * tscale, branch="T<=t_d+(l_da+pi R+l_bp)/D " + br, measure=up,
+    ctx.observe("causal.min", name, up <= 1e-12 * tscale, branch="T<=t_d+(l_da+pi R+l_bp)/D " + br, measure=max(up, 0.0),
                 tol=1e-12 * tscale)
     # Lipschitz for segments that do not cross the obstacle
     n = len(pts)
